@@ -235,10 +235,19 @@ pub mod model {
         tab
     }
 
+    pub fn begin_drain(t: usize, d: usize) {
+        DRAINER.store(d, Ordering::SeqCst);
+        begin_unscheduled_inner(t);
+    }
+
     pub fn begin_unscheduled(t: usize) {
         let d: u8 = crate::kani::any();
         crate::kani::assume((d as usize) < t);
         DRAINER.store(d as usize, Ordering::SeqCst);
+        begin_unscheduled_inner(t);
+    }
+
+    fn begin_unscheduled_inner(t: usize) {
         set_available(t);
         // first worker drains everything: every position owned by worker 0
         let mut c = CTL.lock().unwrap();
@@ -484,9 +493,10 @@ pub mod model {
         if modelled(&c) {
             match len {
                 Some(n) if n <= MAXN => c.n = n,
+                None => {} // iterator-backed source of unknown length: the harness declared it in begin()
                 _ => {
                     drop(c);
-                    diverged("source length unknown or above the model bound")
+                    diverged("source length above the model bound")
                 }
             }
         }
